@@ -155,13 +155,13 @@ class ReadOff:
     """Reads mean and L off real sample(N, rng=stub) calls.  Requests of the stub must be standard-normal arrays of
     shape (m_r, N) (the implementation-shaped statement of the spec); anything else is a machinery failure."""
 
-    def __init__(self, dist, N, transform=None):
-        self.dist, self.N, self.transform = dist, N, transform
+    def __init__(self, dist, N, transform=None, use_global=False):
+        self.dist, self.N, self.transform, self.use_global = dist, N, transform, use_global
         self.requests = None
 
     def call(self, blocks):
         """blocks: None (all zero) or list of (m_r, N) arrays, one per request."""
-        from cuqiverif.script_rng import StubRNG, ScriptError
+        from cuqiverif.script_rng import StubRNG, ScriptError, Stream, scripted
         state = {"k": 0}
 
         def item(shape):
@@ -172,10 +172,17 @@ class ReadOff:
             if k >= len(blocks) or tuple(blocks[k].shape) != tuple(shape):
                 raise ScriptError("request %d of shape %r does not repeat the zero call's requests" % (k, shape))
             return blocks[k]
-        rng = StubRNG(default={"normal": item})
-        with quiet():
-            s = self.dist.sample(self.N, rng=rng)
-        log = [e for e in rng.log]
+        if self.use_global:
+            # no generator given: the module-level numpy.random functions are scripted by the same rules
+            with scripted(stream=Stream(default={"normal": item}, name="global-script")) as st:
+                with quiet():
+                    s = self.dist.sample(self.N)
+            log = list(st.log)
+        else:
+            rng = StubRNG(default={"normal": item})
+            with quiet():
+                s = self.dist.sample(self.N, rng=rng)
+            log = [e for e in rng.log]
         for fn, kind, shape, args in log:
             if kind != "normal" or (args and (np.any(np.asarray(args.get("loc", 0)) != 0) or np.any(np.asarray(args.get("scale", 1)) != 1))):
                 machinery("Gaussian-type sampler requested a %s draw (%s %r): not a standard-normal array" % (kind, fn, args))
@@ -190,14 +197,15 @@ class ReadOff:
         return self.transform(a) if self.transform else a
 
 
-def read_affine(ctx, sigtail, case, dist, N, transform=None, tol=1e-9):
+def read_affine(ctx, sigtail, case, dist, N, transform=None, tol=1e-9, use_global=False):
     """Returns (mean_obs (dim,), L (dim, m_total)) or None after having reported a mismatch.
-    tol: accuracy of the linear solves behind the sampler (relative to the magnitude of the output)."""
+    tol: accuracy of the linear solves behind the sampler (relative to the magnitude of the output).
+    use_global: sample(N) without a generator, numpy's module-level functions scripted (the default code path)."""
     from cuqiverif.script_rng import global_state_digest
-    ro = ReadOff(dist, N, transform)
+    ro = ReadOff(dist, N, transform, use_global)
     g0 = global_state_digest()
     s0, reqs = ro.call(None)
-    if not reqs and global_state_digest() != g0:
+    if not use_global and not reqs and global_state_digest() != g0:
         # the generator that was passed in was never asked, and the global stream moved instead
         ctx.mismatch("rng_ignored/" + sigtail, case, "sample(N, rng=generator) did not draw from the given generator and "
                      "consumed numpy's global random state instead", "requests to the given generator", "none; global state changed")
@@ -357,14 +365,16 @@ def run_gauss(ctx, c, Ns=(1, 3)):
             for N in Ns:
                 sig = gauss_sig(c, N, fmt)
                 tf = np.log if c["wrap"] == "lognormal" else None
-                got = read_affine(ctx, sig, c, dist, N, tf)
-                if got is None:
-                    continue
-                ok = check_law(ctx, sig, c, mean, P_use, True, got, 1e-9)
-                if ok and c["exact"] and got[1].shape == (dim, dim):
-                    Ls = fmat(c["L"])
-                    if not np.allclose(got[1], Ls, rtol=1e-9, atol=1e-12):
-                        ctx.mismatch("exact/" + sig, c, "draw is not mean + sqrtprec^-1 e (docstring of Gaussian._sample)", Ls, got[1])
+                for use_global in (False, True):      # generator given / not given (the default code path)
+                    sg = sig + ("/rng=none" if use_global else "")
+                    got = read_affine(ctx, sg, c, dist, N, tf, use_global=use_global)
+                    if got is None:
+                        continue
+                    ok = check_law(ctx, sg, c, mean, P_use, True, got, 1e-9)
+                    if ok and c["exact"] and got[1].shape == (dim, dim):
+                        Ls = fmat(c["L"])
+                        if not np.allclose(got[1], Ls, rtol=1e-9, atol=1e-12):
+                            ctx.mismatch("exact/" + sg, c, "draw is not mean + sqrtprec^-1 e (docstring of Gaussian._sample)", Ls, got[1])
 
 
 def run_bigdiag(ctx, c, Ns=(1, 2)):
@@ -389,12 +399,14 @@ def run_bigdiag(ctx, c, Ns=(1, 2)):
         return
     for N in Ns:
         sig = sig0 + "/N=%d" % N
-        got = read_affine(ctx, sig, c, dist, N)
-        if got is None:
-            continue
-        if check_law(ctx, sig, c, mean, P, True, got, 1e-9) and got[1].shape == (dim, dim) and c["form"] == "sqrtprec":
-            if not np.allclose(got[1], np.diag(fvec(c["ldiag"])), rtol=1e-9, atol=1e-12):
-                ctx.mismatch("exact/" + sig, c, "draw is not mean + sqrtprec^-1 e", fvec(c["ldiag"]), np.diag(got[1]))
+        for use_global in ((False, True) if N == 1 else (False,)):
+            sg = sig + ("/rng=none" if use_global else "")
+            got = read_affine(ctx, sg, c, dist, N, use_global=use_global)
+            if got is None:
+                continue
+            if check_law(ctx, sg, c, mean, P, True, got, 1e-9) and got[1].shape == (dim, dim) and c["form"] == "sqrtprec":
+                if not np.allclose(got[1], np.diag(fvec(c["ldiag"])), rtol=1e-9, atol=1e-12):
+                    ctx.mismatch("exact/" + sg, c, "draw is not mean + sqrtprec^-1 e", fvec(c["ldiag"]), np.diag(got[1]))
 
 
 # --------------------------------------------------------------------------------------------- facet 1b
@@ -437,14 +449,16 @@ def run_gmrf(ctx, variants, Ns=(1, 3)):
     tol = 1e-9 if c["bc"] == "zero" else 1e-6     # periodic / neumann: documented jitter sqrt(eps) in the factorisation
     for N in Ns:
         sig = key + "/N=%d" % N
-        try:
-            got = read_affine(ctx, sig, case, dist, N, tol=tol)
-        except NotImplementedError as e:
-            ctx.observations.setdefault("gmrf_sampling_not_implemented", {})[key] = str(e)[:100]
-            return
-        if got is None:
-            continue
-        check_law(ctx, sig, case, mean, P, rank == dim, got, tol)
+        for use_global in (False, True):          # generator given / not given (the default code path)
+            sg = sig + ("/rng=none" if use_global else "")
+            try:
+                got = read_affine(ctx, sg, case, dist, N, tol=tol, use_global=use_global)
+            except NotImplementedError as e:
+                ctx.observations.setdefault("gmrf_sampling_not_implemented", {})[key] = str(e)[:100]
+                return
+            if got is None:
+                continue
+            check_law(ctx, sg, case, mean, P, rank == dim, got, tol)
 
 
 # ----------------------------------------------------------------------------------------------- facet 2
@@ -477,11 +491,13 @@ def _tokens_for(shape, Z, N, dim):
     return None, None
 
 
-def run_wiring(ctx, c):
+def run_wiring(ctx, c, use_global=False):
+    """use_global: sample(N) without a generator - the module-level numpy.random functions are scripted (numpy families),
+    scipy's .rvs / the rejection sampler are recorded as with a generator (their random_state / rng is then not judged)."""
     import scipy.stats as sps
-    from cuqiverif.script_rng import StubRNG, ScriptError
+    from cuqiverif.script_rng import StubRNG, ScriptError, Stream, scripted
     N, dim, fam, gen = c["N"], c["dim"], c["family"], c["gen"]
-    sig = wiring_sig(c)
+    sig = wiring_sig(c) + ("/rng=none" if use_global else "")
     ctx.case(("wiring", sig), facet="wiring")
     with quiet():
         dist = build_family(c)
@@ -517,16 +533,20 @@ def run_wiring(ctx, c):
             state["layout"], state["shape"] = layout, tuple(shape)
             return t
         kind = {"normal": "normal", "uniform": "uniform", "gamma": "gamma", "laplace": "laplace"}[gen]
-        rng = StubRNG(queues={kind: [item]})
+        rng = Stream(queues={kind: [item]}, name="global-script") if use_global else StubRNG(queues={kind: [item]})
         g0 = _digest()
         try:
             with quiet():
-                s = dist.sample(N, rng=rng)
+                if use_global:
+                    with scripted(stream=rng):
+                        s = dist.sample(N)
+                else:
+                    s = dist.sample(N, rng=rng)
         except ScriptError as e:
             ctx.mismatch("wiring_request/" + sig, c, "base draws requested differ from the specification (%s(..., size=(N, dim)) once): %s" % (gen, e),
                          expected={"gen": gen, "size": [N, dim]}, observed=[(l[0], list(l[2])) for l in rng.log])
             return
-        if _digest() != g0:
+        if not use_global and _digest() != g0:
             ctx.mismatch("wiring_global/" + sig, c, "global numpy random state consumed although rng was given")
         if len(rng.log) != 1 or rng.log[0][0] != gen:
             ctx.mismatch("wiring_request/" + sig, c, "base draws requested differ from the specification", {"gen": gen, "size": [N, dim]},
@@ -561,20 +581,20 @@ def run_wiring(ctx, c):
         g0 = _digest()
         try:
             with quiet():
-                s = dist.sample(N, rng=sentinel)
+                s = dist.sample(N) if use_global else dist.sample(N, rng=sentinel)
         except ScriptError as e:
             ctx.mismatch("wiring_request/" + sig, c, "base draws requested differ from the specification: %s" % e,
                          {"gen": gen, "size": [N, dim]}, [{k: v for k, v in x.items() if k != "random_state"} for x in rec["calls"]])
             return
         finally:
             del target.rvs
-        if _digest() != g0:
+        if not use_global and _digest() != g0:
             ctx.mismatch("wiring_global/" + sig, c, "global numpy random state consumed although rng was given")
         if len(rec["calls"]) != 1:
             # the family does not go through scipy.stats.<name>.rvs: cannot be read off this way
             machinery("%s.sample made %d calls of scipy.stats.%s.rvs (expected 1)" % (fam, len(rec["calls"]), name))
         got = rec["calls"][0]
-        if got.get("random_state") is not sentinel or _rs_digest(sentinel) != st0:
+        if not use_global and (got.get("random_state") is not sentinel or _rs_digest(sentinel) != st0):
             ctx.mismatch("wiring_rng/" + sig, c, "the generator given as rng is not the one handed to the base generator",
                          "random_state is the rng argument", repr(got.get("random_state")))
         if not compare_args(got, got["_shape"], got["_layout"]):
@@ -600,10 +620,10 @@ def run_wiring(ctx, c):
         g0 = _digest()
         try:
             with quiet():
-                s = dist.sample(N, rng=sentinel)
+                s = dist.sample(N) if use_global else dist.sample(N, rng=sentinel)
         finally:
             del dist._MHN_sample
-        if _digest() != g0:
+        if not use_global and _digest() != g0:
             ctx.mismatch("wiring_global/" + sig, c, "global numpy random state consumed although rng was given")
         if len(rec["calls"]) != N:
             ctx.mismatch("wiring_request/" + sig, c, "number of modified-half-normal draws differs from N", N, len(rec["calls"]))
@@ -614,7 +634,7 @@ def run_wiring(ctx, c):
                     ctx.mismatch("wiring_args/" + sig, c, "rejection sampler is run with %s different from the parameter of the "
                                  "object's own density" % k, own, {q: call[q] for q in ("alpha", "beta", "gamma")})
                     return
-            if call["rng"] is not sentinel:
+            if not use_global and call["rng"] is not sentinel:
                 ctx.mismatch("wiring_rng/" + sig, c, "the generator given as rng is not the one handed to the rejection sampler")
                 return
     else:
@@ -897,6 +917,7 @@ def run(ctx):
         run_gmrf(ctx, groups[k], Ns)
     for c in kinds.get("wiring", []):
         run_wiring(ctx, c)
+        run_wiring(ctx, c, use_global=True)       # no generator given: the default code path of every family
     ctx.traces += len(kinds.get("gauss", [])) + len(kinds.get("bigdiag", [])) + len(groups) + len(kinds.get("wiring", []))
     # ---- stream state machine
     ctx.model_must_hold(res3, "Sampling/stream")
@@ -907,6 +928,9 @@ def run(ctx):
     _tlc.cleanup(res4)
     if (res3.ok and not beh) or (res4.ok and not deep):
         machinery("no behaviours emitted by Sampling (stream facet)")
+    # TLC's workers emit in a scheduling-dependent order: canonical order first, so that a run is a function of VERIF_SEED
+    beh = sorted(beh, key=lambda b: json.dumps(b["steps"], sort_keys=True))
+    deep = sorted(deep, key=lambda b: json.dumps(b["steps"], sort_keys=True))
     rs = np.random.RandomState(ctx.seed)
     order = rs.permutation(len(beh))           # VERIF_SEED only selects which family replays which behaviour
     beh = [beh[i] for i in order]
@@ -950,7 +974,8 @@ def replay(ctx, case):
     if kind == "gmrf":
         return run_gmrf(ctx, [case])
     if kind == "wiring":
-        return run_wiring(ctx, case)
+        run_wiring(ctx, case)
+        return run_wiring(ctx, case, use_global=True)
     if kind == "behaviour":
         makers = stream_families()
         fam = FamilyRun(case["family"], makers[case["family"]])
